@@ -251,7 +251,7 @@ def check(ctx):
                for pc, t, n in cs.raises)
     ctx.ob("C08.R6.model", f"{cf.qualname}|requires a model", need, cf.where(),
            "raises ModelClientException when no estimate run has happened" if need else "does not reject a missing model with the client error")
-    d = cs.env.get("nat_sum_estimates_dict")
+    d = next((x for _, t_, _ in cs.effects for x in ir.walk(t_) if x[0] == "loopout" and x[3] == ("dict", ())), None)
     okloop = False
     if d is not None and d[0] == "loopout":
         body = d[4]
@@ -266,9 +266,12 @@ def check(ctx):
            "the dictionary of all levels is stored once" if len(stores) == 1 else f"{len(stores)} store calls")
     mr = ctx.fn("elexmodel.handlers.data.ModelResults", "ModelResultsHandler.add_national_summary_estimates")
     cols = {}
+    # the frame that ends up in final_results["nat_sum_data"] (whatever its local name)
+    stored = {x.id for n in util.own_nodes(mr, ast.Assign) if isinstance(n.targets[0], ast.Subscript)
+              and ast.unparse(n.targets[0].slice) == "'nat_sum_data'" for x in ast.walk(n.value) if isinstance(x, ast.Name)}
     for n in util.own_nodes(mr, ast.Assign):
         t = n.targets[0]
-        if isinstance(t, ast.Subscript) and isinstance(t.value, ast.Name) and t.value.id == "df":
+        if isinstance(t, ast.Subscript) and isinstance(t.value, ast.Name) and t.value.id in stored:
             name = ast.unparse(t.slice)
             v = ast.unparse(n.value)
             cols[name] = v
